@@ -48,8 +48,19 @@ pub fn check(c: &DCase) -> CaseReport {
         spec.limit = c.limit;
         spec.exponent_limit = c.exponent_limit;
         spec.show_continuation = c.show_continuation;
-        r.display(&spec).to_string()
+        // the formatter object is used twice: formatting must not use anything up
+        let d = r.display(&spec);
+        let first = d.to_string();
+        let second = format!("{}", d);
+        if first != second {
+            return format!("\u{0}FORMATTED-TWICE\u{0}{}\u{0}{}", first, second);
+        }
+        first
     }) {
+        Ok(t) if t.starts_with("\u{0}FORMATTED-TWICE") => {
+            let parts: Vec<&str> = t.split('\u{0}').collect();
+            return CaseReport::fail(key, "same-formatter-prints-differently-the-second-time", json!({"case": c, "first": parts.get(2), "second": parts.get(3)}));
+        }
         Ok(t) => t,
         Err(p) => return CaseReport::fail(key, format!("panic:{}", panic_site(&p)), json!({"case": c, "panic": p})),
     };
@@ -219,7 +230,7 @@ fn digit_runs() -> impl Strategy<Value = DCase> {
 const SPECS: [(usize, usize); 12] = [(6, 8), (12, 12), (1, 1), (1, 15), (20, 1), (20, 15), (3, 4), (8, 2), (2, 9), (5, 5), (10, 3), (15, 7)];
 
 pub fn run_check(ctx: &Ctx) {
-    ctx.set_rule("values: exhaustive grid n/d (n in -N..N, d in 1..D), random terminating and repeating rationals 1e-45..1e45, and budget-boundary values built from the spec (exactly L, L+1.. significant digits; integer parts with E-1, E, E+1 digits; zero tails; all nines), and decimal expansions with a run of 15-45 equal digits (nines, zeros) at any position relative to the point, also divided by 3, 7, 11, 13, 64, 125; specs: limit 1..20 x exponent threshold 1..15 x continuation on/off; oracle: text parses as -?d[.d][…][e-?N], sign matches, |printed| <= |value| < |printed| + one unit in the last place, mark present iff something non-zero was cut; non-trivial = digits were cut or the scientific path was taken; distinct by (value, spec)");
+    ctx.set_rule("values: exhaustive grid n/d (n in -N..N, d in 1..D), random terminating and repeating rationals 1e-45..1e45, and budget-boundary values built from the spec (exactly L, L+1.. significant digits; integer parts with E-1, E, E+1 digits; zero tails; all nines), and decimal expansions with a run of 15-45 equal digits (nines, zeros) at any position relative to the point, also divided by 3, 7, 11, 13, 64, 125; specs: limit 1..20 x exponent threshold 1..15 x continuation on/off (and a class with limits up to 45 and thresholds 16..64); each formatter object is printed twice and must give the same text; oracle: text parses as -?d[.d][…][e-?N], sign matches, |printed| <= |value| < |printed| + one unit in the last place, mark present iff something non-zero was cut; non-trivial = digits were cut or the scientific path was taken; distinct by (value, spec)");
     let corpus: Vec<(String, DCase)> = load_corpus("C08");
     let cases: Vec<DCase> = corpus.into_iter().map(|c| c.1).collect();
     ctx.run_list("corpus", &cases, check, |c| to_json(c));
@@ -247,6 +258,15 @@ pub fn run_check(ctx: &Ctx) {
     let n = ctx.tier.pick(1_500_000u64, 20_000_000);
     ctx.run_gen("boundary", boundary, n, check, |c| to_json(c));
     ctx.run_gen("digit-runs", digit_runs, n / 6, check, |c| to_json(c));
+    // the statement says "every display precision": limits and thresholds beyond the quantifier's 20 / 15
+    // (plain notation asked for everything: thresholds up to 64) on the same value families
+    ctx.run_gen(
+        "wide-specs",
+        || (prop_oneof![rational(), digit_runs().prop_map(|c| c.value())], 1usize..=45, 16usize..=64, prop::bool::weighted(0.85)).prop_map(|(v, l, e, c)| DCase::new(&v, l, e, c)),
+        n / 6,
+        check,
+        |c| to_json(c),
+    );
     ctx.run_gen(
         "random",
         || (rational(), 1usize..=20, 1usize..=15, prop::bool::weighted(0.85)).prop_map(|(v, l, e, c)| DCase::new(&v, l, e, c)),
